@@ -41,6 +41,7 @@ def run(ctx):
     ctx.rule(fc.gabor_truncation_support, "R-C06-gabor-support")
     ctx.rule(fc.gammatone_freq_support, "R-C06-gabor-support")
     ctx.rule(fc.banks_stateless, "R-C06-pure")
+    ctx.rule(empty_responses)
 
 
 def halflen(ctx, R="R-C06-halflen"):
@@ -227,6 +228,22 @@ def same_formula(ctx, R="R-C06-same-formula"):
         ok = d.get("left_idx") == "int(np.ceil(width*%s/(2*np.pi)))" % lo and d.get("right_idx") == "int(width*%s/(2*np.pi))" % hi
         ctx.check(ok, R, f, f.node, "%s: the truncated window covers bins ceil(width lo / 2pi) .. floor(width hi / 2pi) of the angular support" % name,
                   "%s truncated bounds are %s / %s" % (name, d.get("left_idx"), d.get("right_idx")))
+
+
+def empty_responses(ctx, R="R-C06-buffer-span"):
+    """A truncated response is legitimately empty: a narrow filter that falls between two bins of a small DFT has no non-zero bin.
+    The response methods therefore may not apply a reduction without an identity (max, min, argmax ...) to what they return."""
+    from . import partial
+    prog = ctx.prog
+    roots = []
+    for name in fc.BANKS:
+        for meth in ("get_truncated_response",):
+            m = prog.own_method(fc.bank(prog, name), meth)
+            if m is not None:
+                roots.append(m)
+    partial.no_identityless_reductions(
+        ctx, R, roots, "no reduction without an identity is applied to a response (a truncated response may have no bins)",
+        "for a DFT so small that no bin falls inside the filter the method now fails instead of returning the empty response")
 
 
 def hermitian(ctx, R="R-C06-hermitian"):
